@@ -134,12 +134,16 @@ fn write_col_entry<W: Write>(
     out: &mut W,
 ) -> Result<(), MpsWriteError> {
     if let Some(v1::Linear { terms, .. }) = func.clone().as_linear() {
-        // search for current id in terms. If present and coefficient not 0, write entry
-        for term in terms {
-            if term.id == var_id && term.coefficient != 0.0 {
-                let coeff = term.coefficient;
-                writeln!(out, "    {var_name}  {row_name}  {coeff}")?;
-            }
+        // search for current id in terms. A variable may legally appear in several terms, which
+        // add up; a (column, row) pair can only be written once in MPS, so write their sum.
+        // If present and coefficient not 0, write entry
+        let coeff: f64 = terms
+            .iter()
+            .filter(|term| term.id == var_id)
+            .map(|term| term.coefficient)
+            .sum();
+        if coeff != 0.0 {
+            writeln!(out, "    {var_name}  {row_name}  {coeff}")?;
         }
     } else {
         return Err(MpsWriteError::InvalidConstraintType {
